@@ -33,6 +33,17 @@ def alphabet():
         s.setResultHash(A, b'7'); s.setVariantId(A, b'7')
         s.setSynchronous()
 
+    def dsm_1(s):
+        # the source-directory pattern of the builder's checkout step: one dict is stored, mutated and stored again
+        s._verif_d = {'x': (b'1', None), 'y': (b'2', None)}
+        s.setDirectoryState(A, s._verif_d)
+
+    def dsm_2(s):
+        d = getattr(s, '_verif_d', None)
+        if d is None: d = s._verif_d = {'x': (b'1', None), 'y': (b'2', None)}
+        d.pop('x', None)
+        s.setDirectoryState(A, d)
+
     return [
         ('rh_a1', lambda s: s.setResultHash(A, b'1')),
         ('rh_a2', lambda s: s.setResultHash(A, b'2')),
@@ -42,6 +53,8 @@ def alphabet():
         ('dih_a', lambda s: s.delInputHashes(A)),
         ('ds_a1', lambda s: s.setDirectoryState(A, b'1')),
         ('ds_b2', lambda s: s.setDirectoryState(B, [b'2'])),
+        ('dsm_1', dsm_1),
+        ('dsm_2', dsm_2),
         ('rw_a0', lambda s: s.resetWorkspaceState(A, None)),
         ('rw_a9', lambda s: s.resetWorkspaceState(A, b'9')),
         ('vi_a1', lambda s: s.setVariantId(A, b'1')),
@@ -62,7 +75,7 @@ def alphabet():
     ]
 
 
-SMALL = ['rh_a1', 'rh_a2', 'ih_a1', 'rw_a0', 'nd_1', 'jk', 'jj', 'async2', 'dih_a', 'BND']
+SMALL = ['rh_a1', 'rh_a2', 'ih_a1', 'rw_a0', 'nd_1', 'jk', 'jj', 'async2', 'dih_a', 'dsm_1', 'dsm_2', 'BND']
 
 
 def observe(s):
@@ -117,6 +130,7 @@ def run_history(hist, ops):
     snaps = [observe(s)]
     saves = []              # k-th rename to .new -> snapshot index (or None if unknown)
     finals = []
+    unsaved = []
     for name in hist:
         before = len(_tr.ops)
         if name == 'BND':
@@ -131,14 +145,16 @@ def run_history(hist, ops):
             saves += [None] * (n - 1) + [len(snaps) - 1]
         else:
             # no save: the observable state must not have changed either
-            assert observe(s) == snaps[-1], ('state changed without save', hist, name)
+            if observe(s) != snaps[-1]:
+                unsaved.append(name)
+                snaps.append(observe(s))
     trace = list(_tr.ops)
     _tr.enabled = False
     try:
         s.finalize()
     except Exception:
         pass
-    return trace, snaps, saves, finals
+    return trace, snaps, saves, finals, unsaved
 
 
 _cache = {}
@@ -212,11 +228,77 @@ def explore_state(ops, pos, bitflips, stride):
     return res, n
 
 
+def fault_runs(hist, ops):
+    """I/O errors instead of crashes: the k-th write/close/fsync/rename of the history fails (ENOSPC, a close leaves half of
+    the buffered data behind), Bob reports the error and the invocation ends the normal way (finalize).  The next start must
+    load, without error, a snapshot of the history that is not older than the last completed finalize."""
+    st = setup_worker()
+    from bob.errors import BobError
+    out = []
+    k = 0
+    while True:
+        k += 1
+        fresh_dir()
+        _tr.ops = []; _tr.enabled = True; _tr.fds = {}; _tr.fault = k; _tr.nsite = 0; _tr.fired = None
+        try:
+            s = st._BobState()
+            snaps = [observe(s)]
+            lo = 0
+            err = None
+            for name in hist:
+                try:
+                    if name == 'BND':
+                        before = _tr.fired
+                        s.finalize()
+                        # a commit that fails with an I/O error is reported ("Warning: cannot commit workspace state") and the
+                        # changes of that invocation are dropped: such an invocation did not complete
+                        if not (before is None and _tr.fired is not None): lo = len(snaps) - 1
+                        s = st._BobState()
+                    else:
+                        ops[name](s)
+                        o = observe(s)
+                        if o != snaps[-1]: snaps.append(o)
+                except BobError as e:
+                    err = ('reported', name); break
+                except BaseException as e:
+                    err = ('internal', name, type(e).__name__, str(e)[:100]); break
+            fired = _tr.fired
+        finally:
+            _tr.fault = None; _tr.enabled = False
+        if fired is None: break             # k is beyond the last faultable operation of this history
+        if err and err[0] == 'internal':
+            out.append(('io-error:internal-exception:%s' % err[2], hist, k, fired, 'I/O error at %s #%d in %s: %s: %s' % (fired, k, err[1], err[2], err[3])))
+            continue
+        if err:
+            # the failed update may or may not be part of what survives
+            try:
+                o = observe(s)
+                if o not in snaps: snaps.append(o)
+            except BaseException:
+                pass
+        try:
+            if getattr(s, '_BobState__asynchronous', 0) == 0 and not getattr(s, '_BobState__dirty', False): s.finalize()
+        except BaseException as e:
+            out.append(('io-error:finalize-raises:%s' % type(e).__name__, hist, k, fired, str(e)[:100])); continue
+        img = {}
+        for n in os.listdir('.'):
+            if n.startswith('.bob-state') and os.path.isfile(n): img[n] = open(n, 'rb').read()
+        obs, problem = recover(img)
+        if problem:
+            out.append(('io-error:%s:%s' % (problem.split(':')[0], fired), hist, k, fired, 'after an I/O error at %s #%d (reported=%s) and a normal end of the invocation: %s' % (fired, k, bool(err), problem)))
+        elif obs not in snaps[lo:]:
+            what = 'older-than-last-finalize' if obs in snaps else 'mixture-or-unknown-state'
+            out.append(('io-error:%s:%s' % (what, fired), hist, k, fired, 'after an I/O error at %s #%d the next start loads a state that is %s' % (fired, k, what)))
+    return k - 1, out
+
+
 def check_history(job):
     hist, bitflips, stride = job
     ops = dict(alphabet())
-    trace, snaps, saves, finals = run_history(hist, ops)
+    trace, snaps, saves, finals, unsaved = run_history(hist, ops)
     viol = []
+    for name in unsaved:
+        viol.append(('update-not-saved:' + name.split('_')[0], hist, 0, name, 'the getters show the update of %s but no state file was written' % name))
     nimg = npos = 0
     outcomes = set()
     for pos in range(len(trace) + 1):
@@ -241,7 +323,11 @@ def check_history(job):
                 if unknown: continue
                 what = 'older-than-last-finalize' if obs in snaps else 'mixture-or-unknown-state'
                 viol.append(('crash:%s:%s' % (what, desc.split(':')[0]), hist, pos, desc, what))
-    return len(trace), npos, nimg, len(snaps), outcomes, viol[:10]
+    nfault = 0
+    if len(hist) <= 2 or stride == 1:
+        nfault, fv = fault_runs(hist, ops)
+        viol += fv
+    return len(trace), npos, nimg + nfault, len(snaps), outcomes, viol[:10]
 
 
 # ----------------------------------------------------------------------------- lock search
